@@ -320,12 +320,9 @@ func (c *channel) receiver(stream ordering.Gorums_NodeStreamClient) {
 		}
 		err = status.FromProto(resp.Metadata.GetStatus()).Err()
 		c.routeResponse(resp.Metadata.MessageID, response{nid: c.node.ID(), msg: resp.Message, err: err})
-
-		select {
-		case <-c.parentCtx.Done():
-			return
-		default:
-		}
+		// Do not terminate here when the node has been closed: the next RecvMsg fails
+		// (the stream's context is derived from the node's) and the calls that are still
+		// pending are completed with an error before the receiver terminates.
 	}
 }
 
